@@ -146,3 +146,77 @@ def make_replayer(module, func, params, spec_py, defaults=None, rtol=1e-9, py_fu
             rec["error"] = str(ex)
         return rec
     return rp
+
+
+# ---------------------------------------------------------------------------------------------
+import ast as _ast
+import copy as _copy
+
+
+class FragmentFn:
+    """a contiguous list of statements of a real function, executed with a supplied environment.
+    What is dropped is everything of the enclosing function outside the selected statements (reported)."""
+
+    def __init__(self, parent: Fn, stmts, label):
+        self.src = parent.src
+        self.relpath = parent.relpath
+        self.qualname = parent.qualname + "#" + label
+        self.key = f"{parent.relpath}::{parent.qualname}#{label}"
+        node = _ast.FunctionDef(name=parent.node.name, args=_ast.arguments(posonlyargs=[], args=[], kwonlyargs=[], kw_defaults=[], defaults=[]),
+                                body=list(stmts), decorator_list=[], lineno=stmts[0].lineno, col_offset=0)
+        self.node = node
+        self.params = []
+        self.kwonly = []
+        self.defaults = {}
+        self.dropped = [f"fragment: lines {stmts[0].lineno}-{stmts[-1].end_lineno} of {parent.qualname}; the rest of the function is not executed"]
+        import hashlib
+        seg = "\n".join(_ast.unparse(s) for s in stmts)
+        self.sha = hashlib.sha256(seg.encode()).hexdigest()[:16]
+        self._line = stmts[0].lineno
+
+    def info(self):
+        return dict(function=self.key, line=self._line, source_sha=self.sha, translated_from_pyx=self.src.translated, dropped=self.dropped)
+
+
+def find_stmts(fn_node, pred, first_only=True):
+    """statements (anywhere in the function, in source order) satisfying pred"""
+    out = []
+    for n in _ast.walk(fn_node):
+        if isinstance(n, _ast.stmt) and n is not fn_node and pred(n):
+            out.append(n)
+    out.sort(key=lambda s: (s.lineno, s.col_offset))
+    return out
+
+
+def assigns_to(name):
+    def pred(s):
+        if isinstance(s, _ast.Assign):
+            for t in s.targets:
+                for x in _ast.walk(t):
+                    if isinstance(x, _ast.Name) and x.id == name:
+                        return True
+        return False
+    return pred
+
+
+def calls(name):
+    def pred(s):
+        if isinstance(s, (_ast.Assign, _ast.Expr, _ast.AugAssign)):
+            for x in _ast.walk(s):
+                if isinstance(x, _ast.Call) and _ast.unparse(x.func).split(".")[-1] == name:
+                    return True
+        return False
+    return pred
+
+
+def run_fragment(b: Bundle, parent: Fn, stmts, label, env, pre=(), **kw):
+    fr = FragmentFn(parent, stmts, label)
+    b.functions[fr.key] = fr.info()
+    ex = Exec(fr, pre=list(pre), **kw)
+    try:
+        paths = ex.run(dict(env))
+    except SymExError as e:
+        b.subset_exits.append(f"{fr.key}: {e}")
+        return fr, None, None
+    b.absorb_exec(ex)
+    return fr, ex, paths
